@@ -8,10 +8,10 @@ ID = "C18"
 ENGINE = "size-parameterised families (all ordered pairs of self-nesting constructors, lengthening constructors) x terminators x sizes; work counters from a counting Tokenizer subclass"
 RULE = (
     "every ordered pair of self-nesting constructors (brackets, call, subscript, lambda, dict value, comprehension, "
-    "conditional, unary, ${}, $(), @(), tuple/starred targets, del targets, patterns, nested blocks of each compound "
+    "conditional, unary, ${}, $() nested through @() and directly, ![ ], @$(), call macros, tuple/starred targets, del targets, patterns, nested blocks of each compound "
     "statement) nested alternately, and every lengthening constructor (operator chains, argument lists, dict items, "
     "statement lists, string concatenation, decorators, attribute / subscript / comparison / assignment chains), each "
-    "closed by every terminator of {valid leaf, 'a b', missing operand, stray '=', unclosed brackets}, at every size of "
+    "closed by every terminator of {valid leaf, 'a b', missing operand, stray '=', unclosed brackets, an f-string, a stray '}'}, at every size of "
     "the bound. Observation: getnext+peek+reset calls of a counting Tokenizer subclass handed to the public parser "
     "constructor (a count above 5000 x tokens aborts the case). Oracle: work(2d) <= 2.6 x work(d) for d >= 8 and "
     "work(d)/tokens(d) <= 4 x the family's value at d = 4. Non-trivial = families measured at all sizes (distinct)."
@@ -28,8 +28,10 @@ NEST = [
     ("envexpr", "${", "}"), ("subproc", "$(echo @(", "))"), ("tuple1", "(", ",)"), ("starred", "[*", "]"), ("kwarg", "f(k=", ")"),
     ("attrcall", "x.y(", ").z"), ("await", "await ", ""), ("genexp", "f(", " for x in y)"), ("binop", "(1 + ", ")"), ("walrus", "(w := ", ")"),
     ("fstring", "f'{", "}'"),
+    ("subproc-direct", "$(echo ", ")"), ("subproc-sq", "![a ", " b]"), ("inject", "$(echo @$(c ", "))"), ("macro", "f!(", ")"),
 ]
-TERMINATORS = [("leaf", "a"), ("two-names", "a b"), ("missing", ""), ("stray-eq", "a ="), ("unclosed", None)]
+TERMINATORS = [("leaf", "a"), ("two-names", "a b"), ("missing", ""), ("stray-eq", "a ="), ("unclosed", None), ("fstring-leaf", 'f"x"'),
+               ("stray-brace", "a }")]
 # statement-level: wrappers around an expression statement / a target
 STMT = [
     ("expr", "{}\n"), ("assign-rhs", "x = {}\n"), ("target", "{} = 1\n"), ("del", "del {}\n"), ("for-target", "for {} in y: pass\n"),
